@@ -1,7 +1,7 @@
 (* ScanRunTheorems.v — the scan-level checkers hold of the journals of run_once, i.e. of exactly what the
    correspondence evaluates for the model (group names and cloud group names pairwise distinct). *)
 From Esc Require Import SpecScan SpecAws proofs.BaseProofs proofs.AwsProofs proofs.ScanLemmas proofs.ScanChecks proofs.ScanTheorems
-                        proofs.ScanState proofs.ScanTaint proofs.ScanOrder proofs.ScanParser proofs.ScanRun.
+                        proofs.ScanState proofs.ScanTaint proofs.ScanExact proofs.ScanOrder proofs.ScanParser proofs.ScanRun.
 
 Lemma named_of_find s g a : find_asg (s_cloud s) (o_asg (gi_opts g)) = Some a -> asg_named g (Some a).
 Proof. intros H. simpl. eapply find_asg_named. exact H. Qed.
@@ -45,6 +45,8 @@ Theorem run_passes_C03 : forall s, wf_groups s -> wf_snapshot s = true -> for_gr
 Proof. run_lift_wf group_passes_C03. Qed.
 Theorem run_passes_C07 : forall s, wf_groups s -> wf_snapshot s = true -> for_groups check_C07_group s (run_journals s) = true.
 Proof. run_lift_wf group_passes_C07. Qed.
+Theorem run_passes_C07_exact : forall s, wf_groups s -> wf_snapshot s = true -> for_groups check_C07_exact s (run_journals s) = true.
+Proof. run_lift_wf group_passes_C07_exact. Qed.
 Theorem run_passes_C08 : forall s, wf_groups s -> wf_snapshot s = true -> for_groups check_C08_group s (run_journals s) = true.
 Proof. run_lift_wf group_passes_C08. Qed.
 
